@@ -28,8 +28,20 @@ cp "$src/demo_test.go" "$wt/$pdir/zz_seed_demo_test.go"
 rm -f "$wt/$pdir/zz_seed_demo_test.go"
 (cd "$wt" && git apply "$src/patch.diff")
 (cd "$wt" && go test -vet=off -count=1 -timeout 40m ./... > "$wt/suite.log" 2>&1)
-fails=$(grep -E '^--- FAIL' "$wt/suite.log" | grep -vE 'TestJeMalloc( |$)|TestJeMallocSizeAt|TestJeMallocProf|TestJeMallocArenaLarge' | wc -l)
-pkgfail=$(grep -E '^(FAIL|panic)' "$wt/suite.log" | grep -v 'nitro/mm' | grep -v '^FAIL$' | wc -l)
+count_fail() {
+fails=$(grep -E '^--- FAIL' "$1" | grep -vE 'TestJeMalloc( |$)|TestJeMallocSizeAt|TestJeMallocProf|TestJeMallocArenaLarge' | wc -l)
+pkgfail=$(grep -E '^(FAIL|panic)' "$1" | grep -v 'nitro/mm' | grep -v '^FAIL$' | wc -l)
+}
+count_fail "$wt/suite.log"
+if [ $fails -ne 0 ] || [ $pkgfail -ne 0 ]; then
+  # skiplist TestInsert is flaky on the unchanged tree (BASELINE.json "flaky"): re-run the failing packages once
+  pk=$(grep -E '^FAIL\s+github' "$wt/suite.log" | grep -v 'nitro/mm' | awk '{print $2}' | tr '\n' ' ')
+  grep -E '^--- FAIL' "$wt/suite.log" | grep -v JeMalloc > "$dest.firstfail.txt" 2>/dev/null
+  if [ -n "$pk" ]; then
+    (cd "$wt" && go test -vet=off -count=1 -timeout 40m $pk > "$wt/suite2.log" 2>&1)
+    count_fail "$wt/suite2.log"
+  fi
+fi
 ok=1
 [ $rc_with -ne 0 ] || ok=0
 [ $rc_without -eq 0 ] || ok=0
